@@ -49,6 +49,17 @@ def gen_many_rows(rng):
     return {"records": recs, "final_newline": True}
 
 
+def gen_many_records(rng):
+    """Scale outlier: well over a thousand short records."""
+    n = rng.randint(1050, 1400)
+    recs = []
+    for k in range(n):
+        L = rng.choice([1, 2, 5, 17, 50])
+        seq = "".join(rng.choice("ACGTN") for _ in range(L))
+        recs.append({"name": f"r{k}", "desc": "", "seq": seq, "width": rng.choice([7, 60]), "crlf": False})
+    return {"records": recs, "final_newline": True}
+
+
 def gen_fasta(rng, max_records=5, max_len=160, names=None, odd=True):
     """FASTA spec: uniform line width within a record, LF or CRLF per record,
     final newline present or absent, optional descriptions."""
